@@ -41,6 +41,50 @@ pub fn c13(v: &View) -> Vec<Violation> {
         How::BTell(_) | How::DepTell(_) => op == "tell" || op == "blocking_tell",
         How::BAsk(_) | How::DepAsk(_) => op == "ask" || op == "blocking_ask",
     };
+    // First try to explain everything at once: a maximum bipartite matching between dead letters
+    // and failed operations where an edge requires the record to lie inside the operation's
+    // interval, the same target / message type / reason and a label of the operation's family.
+    // If it is perfect, every failure has exactly one fitting record and nothing is spurious -
+    // whatever the interleaving of concurrent failures was. Only otherwise is the greedy pass
+    // below used, to name what is missing, spurious or mislabelled.
+    {
+        let compat = |d: &(u64, String, String, String, String, u64), f: &F| -> bool {
+            let (how, _, ty) = f.o.send().unwrap();
+            let av = &v.actors[f.o.a];
+            f.o.b_seq < d.0 && f.o.e_seq.map(|e| e > d.0).unwrap_or(false) && av.id == d.5 && av.ty == d.1 && type_name_of(ty) == d.2 && f.reason == d.3 && label_ok(how, &d.4)
+        };
+        let nd = v.dead_letters.len();
+        if nd == failed.len() {
+            let mut owner: Vec<Option<usize>> = vec![None; failed.len()];
+            fn try_aug(d: usize, adj: &Vec<Vec<usize>>, seen: &mut Vec<bool>, owner: &mut Vec<Option<usize>>) -> bool {
+                for &f in &adj[d] {
+                    if seen[f] {
+                        continue;
+                    }
+                    seen[f] = true;
+                    if owner[f].is_none() || try_aug(owner[f].unwrap(), adj, seen, owner) {
+                        owner[f] = Some(d);
+                        return true;
+                    }
+                }
+                false
+            }
+            let adj: Vec<Vec<usize>> = v.dead_letters.iter().map(|d| (0..failed.len()).filter(|i| compat(d, &failed[*i])).collect()).collect();
+            let mut matched = 0;
+            for d in 0..nd {
+                let mut seen = vec![false; failed.len()];
+                if try_aug(d, &adj, &mut seen, &mut owner) {
+                    matched += 1;
+                }
+            }
+            if matched == nd {
+                for f in failed.iter_mut() {
+                    f.matched = true;
+                }
+                return finish_c13(v, out, failed.len() as u64);
+            }
+        }
+    }
     for (d, actor_type, msg_type, reason, op, actor_id) in &v.dead_letters {
         // points-to-intervals matching, earliest deadline first; operations whose label fits
         // are preferred so that concurrent failures of different kinds are not crossed
@@ -97,12 +141,16 @@ pub fn c13(v: &View) -> Vec<Violation> {
             ));
         }
     }
+    let nfailed = failed.len() as u64;
+    finish_c13(v, out, nfailed)
+}
+
+fn finish_c13(v: &View, mut out: Vec<Violation>, nfailed: u64) -> Vec<Violation> {
     if v.dl_counts.len() >= 2 {
         let delta = v.dl_counts[v.dl_counts.len() - 1] - v.dl_counts[0];
         if delta != v.dead_letters.len() as u64 {
             out.push(viol("C13", "counter-mismatch", format!("dead_letter_count() advanced by {delta}, {} dead-letter records were emitted", v.dead_letters.len())));
         }
-        let nfailed = failed.len() as u64;
         if delta != nfailed {
             out.push(viol("C13", "counter-vs-failures", format!("dead_letter_count() advanced by {delta}, {nfailed} operations failed to deliver")));
         }
